@@ -158,6 +158,8 @@ class RegDriver:
             src = self.get(ev["src"])
             if ev["why"] == "unknown_field":
                 kw = {"no_such_field_": 1}
+            elif ev["why"] == "post_init":
+                kw = {"note": "boom"}
             else:
                 nf = [f for f in dataclasses.fields(src) if not f.init and f.name not in ("id", "content_id")]
                 kw = {nf[0].name: 5}
@@ -167,6 +169,13 @@ class RegDriver:
                 pass
             else:
                 raise Mismatch("replace-should-raise", f"replace({kw}) did not raise")
+        elif op == "new_fails":
+            try:
+                self.W.cls("Picky")("x", note="boom", origin=self.W.origins[0])
+            except ValueError:
+                pass
+            else:
+                raise Mismatch("new-should-raise", "Picky(note='boom') did not raise")
         elif op == "dup":
             src = self.get(ev["src"])
             d = src.duplicate()
